@@ -7,7 +7,8 @@ of the modulus switch to 2N (its variance field and raw coefficients flow nowher
 R3 noise budget: the closed-form noise model evaluated on the statically extracted parameter constants and
 structural facts gives sigma <= stated bound, |mean| <= bound/4, MUX sigma <= 1.35 x bound, 3/64 >= 8 sigma;
 R4 the key-switching-key noise is one Gaussian per row recentred by the floating-point mean of exactly those draws
-(C07's rule for lweCreateKeySwitchKey), which the mean clause relies on.
+(C07's rule for lweCreateKeySwitchKey), which the mean clause relies on; R5 every gate consumes its inputs before the first
+write to its output (C15.R3): netlists with in-place updates are inside the quantifier.
 Not decided: that the measured noise follows the formulas (independence heuristics, FFT error) and the statement about
 whole netlists as such.
 """
@@ -149,9 +150,15 @@ def run(chk):
                         terms_with(a, X, acc)
                         uses += [(p["line"], u if u is not None else ("call", p.get("name"), ())) for u in acc]
                 for lp in p["loops"]:
+                    for lk in ("hi", "lo", "cond"):
+                        if isinstance(lp.get(lk), tuple):
+                            acc = []
+                            terms_with(lp[lk], X, acc)
+                            uses += [(p["line"], ("loopbound",)) for u in acc]
+                for g_ in p.get("guards") or []:
                     acc = []
-                    terms_with(lp["hi"], X, acc)
-                    uses += [(p["line"], ("loopbound",)) for u in acc]
+                    terms_with(g_, X, acc)
+                    uses += [(p["line"], u if u is not None and u[0] == "call" else ("guard",)) for u in acc]
             bad = [(ln, u) for ln, u in uses if not (u is not None and u[0] == "call" and u[1] == "modSwitchFromTorus32")]
             fields = set()
             for p in ps:
@@ -186,6 +193,15 @@ def run(chk):
         chk.require(not hits, "R2", "the bootstrap closure reads no mutable process-wide state (no history)", where="libtfhe",
                     ok="%d functions in the closure, %d mutable statics in the library, none referenced" % (len(reach), len(muts)),
                     bad="; ".join(hits[:3]), variant=vn)
+        # ---------------- R5 in-place updates (output wire = an input wire) are part of the quantifier: every gate consumes its
+        # inputs before the first write to its output (C15.R3)
+        from rules import c15 as _c15
+        from sa import api as _api
+        _E, _bal = _c15.evaluation_effects(v)
+        _roles = _api.roles(v)
+        _evalfns = [v.defs[u] for u, r in _roles.items() if r == "evaluation" and u in v.defs]
+        from rules import c04 as _c04
+        _c15.check_alias_safe_gates(_c04._Sub(chk, "R5"), v, _E, _evalfns)
         # ---------------- R4 the key-switching-key noise is recentred (the mean bound relies on it: without it every gate output
         # under one key carries the same offset  -(number of selected rows) x (average row noise))
         from rules import c04, c07
